@@ -178,10 +178,20 @@ func inlinable(fd *ast.FuncDecl) bool {
 		}
 	}
 	ok := true
+	top := map[*ast.DeferStmt]bool{}
+	for _, s := range fd.Body.List {
+		if d, isD := s.(*ast.DeferStmt); isD {
+			top[d] = true
+		}
+	}
 	ast.Inspect(fd.Body, func(n ast.Node) bool {
 		switch x := n.(type) {
 		case *ast.DeferStmt:
-			ok = false
+			// a plain call deferred by a top-level statement of the body can be run at the returns
+			// that follow it (see expansion); anything else keeps the helper a call
+			if _, isLit := x.Call.Fun.(*ast.FuncLit); isLit || !top[x] || x.Call.Ellipsis.IsValid() {
+				ok = false
+			}
 		case *ast.LabeledStmt:
 			// labels generated by an earlier round's expansion are renamed on every copy
 			if !strings.HasPrefix(x.Label.Name, "_inl") {
@@ -488,6 +498,83 @@ func (il *inliner) expansion(call *ast.CallExpr, c *candidate, recv string) (str
 	useLabel := false
 	base := c.tf.Offset(body.Lbrace) + 1
 	txt := string(c.src[base:c.tf.Offset(body.Rbrace)])
+	// deferred plain calls (top-level statements of the body): run, last first, at every return
+	// that follows them. Their operands must be names that are not assigned afterwards, so that
+	// evaluating them at the return gives what the defer statement saw. (The one difference —
+	// a panic inside the helper no longer runs them — concerns no rule: helpers that recover
+	// are not expanded.)
+	var defers []*ast.DeferStmt
+	for _, st := range body.List {
+		if d, isD := st.(*ast.DeferStmt); isD {
+			defers = append(defers, d)
+		}
+	}
+	if len(defers) > 0 {
+		info := il.pkg.TypesInfo
+		for _, d := range defers {
+			stable := true
+			used := map[types.Object]bool{}
+			ast.Inspect(d.Call, func(n ast.Node) bool {
+				switch x := n.(type) {
+				case *ast.Ident:
+					if o := info.Uses[x]; o != nil {
+						if v, isVar := o.(*types.Var); isVar && !v.IsField() && v.Pkg() != nil && v.Parent() != v.Pkg().Scope() {
+							used[o] = true
+						}
+					}
+				case *ast.CallExpr:
+					if x != d.Call {
+						stable = false // an operand that is itself a call is evaluated at the defer statement
+					}
+				case *ast.FuncLit, *ast.UnaryExpr, *ast.IndexExpr, *ast.StarExpr:
+					stable = false
+				}
+				return stable
+			})
+			ast.Inspect(body, func(n ast.Node) bool {
+				if n == nil || n.End() <= d.End() {
+					return true
+				}
+				switch x := n.(type) {
+				case *ast.AssignStmt:
+					for _, l := range x.Lhs {
+						if id, isId := l.(*ast.Ident); isId && (used[info.Uses[id]] || used[info.Defs[id]]) && id.Pos() > d.End() {
+							stable = false
+						}
+					}
+				case *ast.IncDecStmt:
+					if id, isId := x.X.(*ast.Ident); isId && used[info.Uses[id]] && id.Pos() > d.End() {
+						stable = false
+					}
+				case *ast.UnaryExpr:
+					if id, isId := x.X.(*ast.Ident); isId && x.Op == token.AND && used[info.Uses[id]] {
+						stable = false
+					}
+				}
+				return true
+			})
+			if !stable {
+				return "", nil, false
+			}
+		}
+	}
+	deferredAt := func(pos token.Pos) string {
+		var b strings.Builder
+		for i := len(defers) - 1; i >= 0; i-- {
+			if defers[i].End() <= pos {
+				b.WriteString("; " + c.text(defers[i].Call))
+			}
+		}
+		return b.String()
+	}
+	type bodyEdit struct {
+		s, e int
+		t    string
+	}
+	var bes []bodyEdit
+	for _, d := range defers {
+		bes = append(bes, bodyEdit{c.tf.Offset(d.Pos()) - base, c.tf.Offset(d.End()) - base, "_ = 0"})
+	}
 	sort.Slice(rets, func(i, j int) bool { return rets[i].Pos() > rets[j].Pos() })
 	for _, rt := range rets {
 		var rb strings.Builder
@@ -505,16 +592,29 @@ func (il *inliner) expansion(call *ast.CallExpr, c *candidate, recv string) (str
 			}
 			fmt.Fprintf(&rb, "%s = %s", strings.Join(rnames, ", "), strings.Join(vals, ", "))
 		}
+		if dc := deferredAt(rt.Pos()); dc != "" {
+			if len(results) == 0 {
+				dc = strings.TrimPrefix(dc, "; ")
+			}
+			rb.WriteString(dc)
+		}
 		if ast.Stmt(rt) != last {
-			if len(results) > 0 {
+			if len(results) > 0 || len(defers) > 0 {
 				rb.WriteString("; ")
 			}
 			rb.WriteString("break " + p)
 			useLabel = true
 		}
 		rb.WriteString(" }")
-		s, e := c.tf.Offset(rt.Pos())-base, c.tf.Offset(rt.End())-base
-		txt = txt[:s] + rb.String() + txt[e:]
+		bes = append(bes, bodyEdit{c.tf.Offset(rt.Pos()) - base, c.tf.Offset(rt.End()) - base, rb.String()})
+	}
+	sort.Slice(bes, func(i, j int) bool { return bes[i].s > bes[j].s })
+	for _, be := range bes {
+		txt = txt[:be.s] + be.t + txt[be.e:]
+	}
+	if _, endsInReturn := last.(*ast.ReturnStmt); !endsInReturn && len(defers) > 0 {
+		// the body can run off its end (only possible without results): the deferred calls run there
+		txt += "\n" + strings.TrimPrefix(deferredAt(body.Rbrace), "; ") + "\n"
 	}
 	// names generated by earlier expansions inside the copied body stay unique per copy
 	txt = inlNameRe.ReplaceAllStringFunc(txt, func(name string) string {
